@@ -801,6 +801,29 @@ def parse_perf_conv():
     return rows, osu_fields
 
 
+# ------------------------------------------------------------------ legacy sort call sites (C06 / C19)
+
+def parse_sort_facts():
+    """`util::sort::osu_legacy` reads its pivot by index, so it only re-orders ties of an already
+    time-ordered slice; every call site must order the slice first"""
+    facts = []
+    nd = norm(strip_test_modules(strip_comments(read("src/model/beatmap/decode.rs"))))
+    nm = norm(strip_test_modules(strip_comments(read("src/mania/convert/mod.rs"))))
+    facts.append(("decode: hit objects are sorted stably by start time (TandemSorter) right before sort::osu_legacy",
+                  re.search(r"let mut sorter = sort::TandemSorter::new_stable\(&state\.hit_objects, \|a, b\| \{ a\.start_time\.total_cmp\(&b\.start_time\) \}\); "
+                            r"sorter\.sort\(&mut state\.hit_objects\); sorter\.sort\(&mut state\.hit_sounds\); "
+                            r"if state\.mode == GameMode::Mania \{ sort::osu_legacy\(&mut state\.hit_objects\); \}", nd) is not None))
+    facts.append(("mania convert: hit objects are sorted by start time right before sort::osu_legacy",
+                  re.search(r"map\.hit_objects\.sort_by\(cmp_by_start_time\); sort::osu_legacy\(&mut map\.hit_objects\);", nm) is not None))
+    n_calls = 0
+    for rel in source_files():
+        if rel.startswith("src/util/sort") or rel.endswith("verif.rs"):
+            continue
+        n_calls += len(re.findall(r"\bosu_legacy\(", strip_test_modules(strip_comments(read(rel)))))
+    facts.append(("sort::osu_legacy has exactly these two call sites", n_calls == 2))
+    return [f"({coq_str(n)}, {'true' if ok else 'false'})" for n, ok in facts]
+
+
 # ------------------------------------------------------------------ bpm comparator (C01)
 
 def parse_bpm_facts():
@@ -830,6 +853,7 @@ def generate():
     effects, unsafes, features = parse_effects()
     lifetimes = parse_lifetimes()
     bpm_facts = parse_bpm_facts()
+    sort_facts = parse_sort_facts()
     score_conv = parse_score_conv()
     perf_conv, osu_perf_fields = parse_perf_conv()
     L = []
@@ -901,6 +925,8 @@ def generate():
     A("(* TryFrom<OsuPerformance> for the other modes' builders: (target mode, [(target field, osu! field | None | map)]) *)")
     A("Definition perf_conv : list (mode * list (string * string)) :=\n  " + coq_list(perf_conv).replace("; (", ";\n   (") + ".")
     A("Definition osu_perf_fields : list string := " + coq_list([coq_str(f) for f in osu_perf_fields]) + ".")
+    A("(* the legacy tie re-ordering sort is only applied to slices that are already ordered by start time *)")
+    A("Definition sort_facts : list (string * bool) :=\n  " + coq_list(sort_facts).replace("; (", ";\n   (") + ".")
     A("(* the comparator of Beatmap::bpm that Model/Bpm.v transcribes *)")
     A("Definition bpm_facts : list (string * bool) :=\n  " + coq_list(bpm_facts).replace("; (", ";\n   (") + ".")
     A("(* facts the ownership argument of C11 rests on, each checked against the current source *)")
